@@ -55,6 +55,9 @@ LOCAL_CANDIDATES = [
     {"id": "C06-F1", "match": {"rule": "stream_count", "after_zero_rtt_lowered": True},
      "what": "streams created from remembered 0-RTT parameters stay open although the handshake delivered a "
              "smaller max_streams"},
+    {"id": "C06-F1", "match": {"rule": "connection_data_limit", "after_zero_rtt_lowered": True},
+     "what": "data sent (or re-sent after a rejected 0-RTT) under the remembered max_data exceeds the smaller "
+             "max_data delivered by the handshake"},
     {"id": "C06-F2", "match": {"rule": "stream_count", "frame": "RESET_STREAM", "never_opened": True},
      "what": "reset_stream() on a stream blocked by the stream-count limit emits RESET_STREAM beyond MAX_STREAMS"},
     {"id": "C06-F2", "match": {"rule": "stream_count", "frame": "STOP_SENDING", "never_opened": True},
@@ -642,6 +645,7 @@ def gen_limits(rng):
 
 def gen_steps(rng, n, b, lim, peer_ok=True, sids_state=None):
     st = sids_state if sids_state is not None else {"done": set(), "peer": False, "md": lim[0], "ms": [lim[4], lim[5]], "msd": {}}
+    st.setdefault("created", set())
     steps = []
     sizes = [0, 1, 1, max(1, b - 1), b, b + 1, 2 * b + 1, 3 * b, rng.choice([1199, 1200, 2500])]
     for _ in range(n):
@@ -655,16 +659,20 @@ def gen_steps(rng, n, b, lim, peer_ok=True, sids_state=None):
                 continue
             fin = rng.random() < 0.15
             steps.append(["send", sid, min(rng.choice(sizes), 4000), int(fin)])
+            if sid % 2 == 0:
+                st["created"].add(sid)
             if fin:
                 st["done"].add(sid)
             if rng.random() < 0.7:
                 steps.append(["pump"])
         elif r < 0.34:
-            sid = rng.choice(LOCAL_BIDI[:3] + LOCAL_UNI[:2])
+            live = [x for x in sorted(st["created"]) if x not in st["done"]]
+            sid = rng.choice(live) if live and rng.random() < 0.8 else rng.choice(LOCAL_BIDI[:3] + LOCAL_UNI[:2])
             if sid in st["done"]:
                 continue
             steps.append(["reset", sid, rng.randint(0, 9)])
             st["done"].add(sid)
+            st["created"].add(sid)
             steps.append(["pump"])
         elif r < 0.36:
             steps.append(["stop", rng.choice(LOCAL_BIDI[:3]), 3])
@@ -679,11 +687,16 @@ def gen_steps(rng, n, b, lim, peer_ok=True, sids_state=None):
             st["md"] = max(cur, v)
             steps.append(["max_data", v])
         elif r < 0.64:
-            sid = rng.choice(LOCAL_BIDI[:3] + LOCAL_UNI[:2] + ([1] if st["peer"] else []))
+            pool = sorted(st["created"]) + ([1] if st["peer"] else [])
+            if not pool and rng.random() < 0.9:
+                continue
+            if not pool or rng.random() < 0.04:
+                pool = LOCAL_BIDI[:3] + LOCAL_UNI[:2]      # possibly a stream the client has not created: STREAM_STATE_ERROR
+            sid = rng.choice(pool)
             cur = st["msd"].get(sid, lim[3] if sid & 2 else (lim[2] if sid % 2 == 0 else lim[1]))
             v = max(0, rng.choice([cur - 1, cur, cur + 1, cur + b, cur + 2 * b + 1, cur // 2, cur + 5000]))
             st["msd"][sid] = max(cur, v)
-            steps.append(["max_stream_data", sid, v])     # for a stream the client has not created: STREAM_STATE_ERROR
+            steps.append(["max_stream_data", sid, v])
         elif r < 0.72:
             uni = int(rng.random() < 0.4)
             cur = st["ms"][uni]
@@ -691,7 +704,12 @@ def gen_steps(rng, n, b, lim, peer_ok=True, sids_state=None):
             st["ms"][uni] = max(cur, v)
             steps.append(["max_streams", uni, v])
         elif r < 0.74:
-            sid = rng.choice(LOCAL_BIDI[:2] + [1])
+            pool = [x for x in sorted(st["created"]) if x not in st["done"]] + ([1] if st["peer"] else [])
+            if not pool and rng.random() < 0.9:
+                continue
+            if not pool or rng.random() < 0.08:
+                pool = LOCAL_BIDI[:2] + [1]
+            sid = rng.choice(pool)
             steps.append(["stop_sending", sid])
             st["done"].add(sid)
         elif r < 0.77 and not st["peer"]:
@@ -721,7 +739,8 @@ def gen_case(rng, i):
         early = [s for s in gen_steps(rng, rng.randint(1, 5), b0, first, peer_ok=False, sids_state=st) if s[0] in ("send", "reset", "pump")]
         case["zero"] = {"first": first, "reject": reject, "early": early}
         case["steps"] = gen_steps(rng, rng.randint(2, 14), b, lim, sids_state={"done": st["done"], "peer": False, "md": lim[0],
-                                                                              "ms": [lim[4], lim[5]], "msd": {}})
+                                                                              "ms": [lim[4], lim[5]], "msd": {},
+                                                                              "created": set(st.get("created", ()))})
         return case
     case["steps"] = gen_steps(rng, rng.randint(3, 28), b, lim)
     return case
